@@ -17,7 +17,6 @@ STATUSES = [0, 256, 768, 1024, 9, 15, 6, 11, 0xFF00, 134, 512, 40, 35, 63, 139, 
 C03_SIGNALS = [SIG["TTIN"], SIG["TTOU"], SIG["HUP"]]
 
 KEY_D17 = "fork-reap-race-timeout0"
-KEY_D22 = "boot-failure-during-halt"
 
 
 # ---------------------------------------------------------------------------------------------------
@@ -118,22 +117,21 @@ def judge(cfg, w):
             fails.append(("after events stopped the pool did not converge: " + "; ".join(problems), key))
     elif out == "exit":
         status = w.outcome[1]
-        # a boot failure reaped before the master began to stop decides the exit status; one reaped during a
-        # shutdown that was already under way does not
-        first = [(p, s) for p, s in boot_reaped if w.final_stop_at is None or w.reap_at.get(p, 0) <= w.final_stop_at]
+        # the first reason decides: a boot failure reaped before the master entered stop() halts it with that code; one
+        # reaped once a shutdown (TERM / INT / QUIT, or the halt of an earlier boot failure) is under way is an ordinary death
+        first = [(p, s) for p, s in boot_reaped if w.stopping_at is None or w.reap_at.get(p, 0) <= w.stopping_at]
         if first:
             want = first[0][1] >> 8
             if status != want:
                 fails.append(("a worker exited with boot-failure code %d but the master exited with status %r" % (want, status), None))
         elif status != 0:
-            fails.append(("master exited with status %r without any boot failure" % (status,), None))
+            fails.append(("master exited with status %r although no boot failure was reaped before it began to stop%s" % (
+                status, " (reaped while it was stopping: %r)" % (boot_reaped,) if boot_reaped else ""), None))
         if w.forks_after_stop:
             fails.append(("%d fork(s) after the master began to halt" % w.forks_after_stop, None))
     elif out == "crash":
-        key = KEY_D22 if (boot_reaped and w.final_stop_at is not None
-                          and w.reap_at.get(boot_reaped[-1][0], -1) >= w.final_stop_at) else None
         fails.append(("HaltServer escaped from Arbiter.run() (exit status 1 with a traceback, pid file kept): %s; boot failures reaped: %r"
-                      % (w.outcome[1], boot_reaped), key))
+                      % (w.outcome[1], boot_reaped), None))
     else:
         fails.append(("Arbiter.run() returned", None))
     return fails
@@ -142,7 +140,7 @@ def judge(cfg, w):
 # ---------------------------------------------------------------------------------------------------
 # generators
 # ---------------------------------------------------------------------------------------------------
-# Proof/ArbiterRefute.v: d17_schedule, d22_schedule
+# Proof/ArbiterRefute.v: d17_schedule (refuted), d22_schedule (a crash only on a tree without the `not self._stopping` test)
 WITNESS_D17 = [("M",)] * 3 + [("X", 100, 0), ("C",)] + [("M",)] * 6
 WITNESS_D22 = [("M",)] * 9 + [("X", 100, 768), ("X", 101, 768), ("C",), ("M",), ("C",)]
 
@@ -170,6 +168,12 @@ def fixed_cases():
             cases.append((cfg_of(2, 2), s, "boot-failure"))
             s2 = [("M",)] * i + [("Xk", 0, code), ("Xk", 1, code), ("C",)] + [("M",)] * 3 + [("C",)] + [("M",)] * 2
             cases.append((cfg_of(3, 2), s2, "boot-failure-x2"))
+    # a boot failure around a shutdown signal: before the dispatch it decides the status, afterwards it is an ordinary death
+    for sg in ("TERM", "INT", "QUIT"):
+        for code in (768, 1024):
+            for i in range(0, 9):
+                s = [("M",)] * 12 + [("S", SIG[sg])] + [("M",)] * i + [("Xk", 0, code), ("C",)] + [("M",)] * 4
+                cases.append((cfg_of(2, 2), s, "stop+boot-failure"))
     for sg in ("TTIN", "TTOU", "HUP"):
         for i in range(0, 20, 1):
             s = [("M",)] * 12 + [("S", SIG[sg])] + [("M",)] * i + [("Xk", 0, 9), ("C",)] + [("M",)] * 5
@@ -180,7 +184,7 @@ def fixed_cases():
     cases.append((cfg_of(2, 0), [("M",)] * 12 + [("E", 4, 0), ("S", SIG["HUP"])] + [("M",)] * 30, "reload"))
     cases.append((cfg_of(3, 2), [("M",)] * 14 + [("E", 1, 1), ("S", SIG["HUP"])] + [("M",)] * 30, "reload"))
     cases.append((cfg_of(0, 2), [("M",)] * 5 + [("S", SIG["TTIN"])] + [("M",)] * 10, "zero-workers"))
-    # the witnesses of the _refuted theorems of Props/C03.v, replayed on the implementation
+    # the witness schedules of Props/C03.v (C03_converges_refuted, C03_boot_failure_during_halt), replayed on the implementation
     cases.append((cfg_of(2, 0, graceful=30), WITNESS_D17, "witness-D17"))
     cases.append((cfg_of(2, 30, graceful=30), WITNESS_D22, "witness-D22"))
     return cases
@@ -287,6 +291,11 @@ def run(ctx):
         search(ctx, [corr[i][2] for i, _, _ in (bad or [])[:40]])
     if not ctx.quick():
         real_processes(ctx)
+    else:
+        notes = real_boot_failure(ctx)
+        ctx.extra["real_process_notes"] = notes
+        for n in notes:
+            ctx.violation("real processes: " + n, {"kind": "real-process", "note": n})
 
 
 def report(ctx, failures):
@@ -383,26 +392,33 @@ def real_processes(ctx):
                     notes.append("%s worker class: after %s the process table did not reach %d live workers (now %r)" % (cls, what, want, srv.workers()))
         finally:
             rc = srv.stop()
-    # an application that cannot boot: one worker -> exit status 3; four workers -> D22 (status 1, pid file kept)
+    notes += real_boot_failure(ctx)
+    ctx.extra["real_process_notes"] = notes
+    for n in notes:
+        ctx.violation("real processes (supporting exploration): " + n, {"kind": "real-process", "note": n})
+
+
+def real_boot_failure(ctx):
+    """real processes: an application that cannot boot.  One worker, and four workers failing at the same moment (the
+    second SIGCHLD arrives while halt() runs): the master must exit with the boot-failure status (3 or 4), not 1, and
+    must not leave its pid file behind."""
+    import os
+    import lib_realproc as R
+    notes = []
     for nw in (1, 4):
         srv = R.Server(workers=nw, app="bootfail:app", graceful=3)
         try:
             srv.wait_for(lambda: srv.proc.poll() is not None, 25)
             rc = srv.proc.poll()
-            pidfile_left = __import__("os").path.exists(srv.pidfile)
+            pidfile_left = os.path.exists(srv.pidfile)
             ctx.hist("real_boot_failure", "workers=%d exit=%r pidfile_left=%s" % (nw, rc, pidfile_left))
             if rc is None:
                 notes.append("boot failure with %d worker(s): the master did not exit" % nw)
-            elif rc != 3:
-                if nw > 1 and rc == 1 and ctx.known.has(ctx.prop, KEY_D22):
-                    ctx.violation("real processes: %d workers fail to boot: master exit status %r, pid file left: %s" % (nw, rc, pidfile_left), {}, key=KEY_D22)
-                else:
-                    notes.append("boot failure with %d worker(s): master exit status %r instead of 3 (pid file left: %s)" % (nw, rc, pidfile_left))
+            elif rc not in (3, 4) or pidfile_left:
+                notes.append("boot failure with %d worker(s): master exit status %r instead of 3 / 4, pid file left: %s" % (nw, rc, pidfile_left))
         finally:
             srv.stop()
-    ctx.extra["real_process_notes"] = notes
-    for n in notes:
-        ctx.violation("real processes (supporting exploration): " + n, {"kind": "real-process", "note": n})
+    return notes
 
 
 def replay(rep):
